@@ -30,6 +30,17 @@ TRUSTED = [
     "row costs fed to the oracle are computed by the harness from the document: 1 line per short cell, k lines "
     "for texts measured with get_string_width to lie well inside the k-line band, +1 per rendered group heading",
 ]
+MANIFEST = dict(
+    text="Lean theorems over the model of _assign_pages + group-change detection (all row lists, nrow, "
+         "reservations, flag patterns, by induction): numbering from 1 without gaps, a break only when the row "
+         "does not fit or a grouping rule demands it, always then, prefix stability. The model is tied to the code "
+         "on every run by unit correspondence (exhaustive small vectors + random) and by observation of whole "
+         "documents whose observed pagination is judged by the Lean-defined oracle checkBreaks.",
+    note="Row costs in the document-level oracle come from the harness (texts well inside a line band, measured "
+         "with the real get_string_width); Pillow, polars and pydantic are parameters.",
+    technique="Lean 4 proof (induction over rows) + differential correspondence model/implementation",
+    design="7/C04",
+)
 ASSUME = [
     "Pillow/FreeType string width is a parameter (measured, not modelled)",
     "polars row order and slicing; pydantic construction",
